@@ -515,6 +515,10 @@ def gen_edge_problem(rng):
 def gen_calls(rng, spec, family):
     nk, nt = spec["nk"], len(spec["targets"])
     calls = []
+    if family == "c09" and rng.random() < 0.4:
+        # the knobs leave their iteration-0 values before anything is disabled: a later failing solve() has to bring
+        # every knob back, the disabled ones included
+        calls.append(["step", {"n": rng.randint(1, 2), "take_best": rng.random() < 0.7}])
     if rng.random() < 0.3 and nk > 1:
         calls.append(["disable", {"vary": [rng.randrange(nk)]}])
     if rng.random() < 0.3 and nt > 1:
@@ -560,6 +564,12 @@ def fixed_cases():
                             "knobs": [{"init": 0.5}, {"init": -1.0}], "targets": [{"tol": 1e-9}, {"tol": 1e-9}], "n_steps_max": 5},
                "calls": [["disable", {"vary": [k]}], ["step", {"n": 1}], ["tag", {"tag": "frozen"}], ["enable", {"vary": [k]}],
                          ["step", {"n": 2}], ["reload", {"i": 1}]]}
+    # knobs moved by a step, one of them disabled, then a solve() that cannot succeed: restore to iteration 0
+    for k in (0, 1):
+        yield {"problem": {"class": "tolfail", "kind": "linear", "nk": 2, "A": [[1, 0], [0, 1], [1, 1]], "b": [1, 1, 5],
+                            "knobs": [{"init": 0.0}, {"init": 0.0}], "targets": [{"tol": 1e-9}, {"tol": 1e-9}, {"tol": 1e-9}],
+                            "n_steps_max": 3},
+               "calls": [["step", {"n": 1}], ["disable", {"vary": [k]}], ["solve", {}]]}
     # the probed max_step witness: max_step = (1, 5), raw step (10, 10)
     yield {"problem": {"class": "far", "kind": "linear", "nk": 2, "A": [[1, 0], [0, 1]], "b": [10, 10],
                         "knobs": [{"init": 0.0, "max_step": 1}, {"init": 0.0, "max_step": 5}],
